@@ -125,8 +125,8 @@ func builtinStringLastIndexOf(call FunctionCall) Value {
 		return intValue(lastIndexRune(value, target))
 	}
 	start := call.ArgumentList[1].number()
-	if start.kind == numberInfinity { // FIXME
-		// startNumber is infinity, so start is the end of string (start = length)
+	if start.kind == numberNaN || (start.kind == numberInfinity && start.float64 > 0) {
+		// 15.5.4.8: a NaN position counts as +Infinity, so start is the end of string (start = length)
 		return intValue(lastIndexRune(value, target))
 	}
 	if 0 > start.int64 {
